@@ -303,8 +303,10 @@ def z0_inverse(seed, nobs):
 
 
 @S.kind("z0-rotation")
-def z0_rotation(seed, nobs, half_win, shift):
-    """Smoothed estimate: rotating all wind directions by whole degrees changes nothing."""
+def z0_rotation(seed, nobs, half_win, shift, dense=False):
+    """Smoothed estimate: rotating all wind directions by whole degrees changes nothing.
+    dense: the directions populate EVERY one-degree bin (nobs/360 observations per bin, shuffled),
+    so a window that is not circular at a single bin edge changes some median."""
     import numpy as np
     from bldfm.ffm_kormann_meixner import estimateZ0
     rs = np.random.RandomState(seed)
@@ -313,6 +315,13 @@ def z0_rotation(seed, nobs, half_win, shift):
     L = rs.choice([-1.0, 1.0], nobs) * np.exp(rs.uniform(np.log(10), np.log(1e5), nobs))
     ws = rs.uniform(1.0, 9.0, nobs)
     wd = rs.randint(0, 360 * 8, nobs) / 8.0             # exact binary fractions of a degree
+    if dense:
+        if nobs % 360:
+            raise AssertionError("generator: dense needs a multiple of 360 observations")
+        per = nobs // 360
+        wd = np.repeat(np.arange(360.0), per) + np.tile((np.arange(per) + 0.5) / per, 360)
+        wd = np.floor(wd * 8.0) / 8.0
+        rs.shuffle(wd)
     import warnings
     wd2 = (wd + shift) % 360.0
     with warnings.catch_warnings():
@@ -441,6 +450,11 @@ def generate(tier, rng):
         yield "z0-rotation", dict(seed=rng.randrange(2 ** 31), nobs=rng.choice([20, 100, 400]),
                                   half_win=rng.choice([22, 22, 5, 45]),
                                   shift=rng.choice([1, 7, 45, 90, 133, 180, 271, 359]))
+    # every degree bin populated: default window and others, shifts incl. across north
+    for k, (hw, sh) in enumerate([(22, 100), (22, 1), (5, 180), (45, 271), (1, 359), (22, 45),
+                                  (10, 7), (30, 133)] * (1 if q else 4)):
+        yield "z0-rotation", dict(seed=rng.randrange(2 ** 31), nobs=(720, 360, 1080)[k % 3],
+                                  half_win=hw, shift=sh, dense=True)
 
 
 if __name__ == "__main__":
